@@ -19,7 +19,8 @@ func init() {
 			"C03.keyhash — in every cacheKey method of an expression type with operands, the operands' keys flow only through order-preserving encoders (append, binary Put/AppendUint64, helper parameters) into a recognised hash (xxhash), never through arithmetic/bitwise operators or math/bits, the method returns that hash, and a per-type constant tag reaches the same hash input with tags pairwise distinct; " +
 			"C03.keypair — each eval looks up and stores under its own cacheKey(), stores exactly the bitmap it returns, and returns the cached bitmap itself on a hit; " +
 			"C03.pure — in everything reachable from Execute/GetSchema every call of a mutating roaring.Bitmap method has a receiver created in that function and not yet handed to Cache.Put, and every roaring package function called is in the reviewed non-mutating table; " +
-			"C03.storeimm — fields of Index and of the column getters are written only by the open/option/close functions. " +
+			"C03.storeimm — fields of Index and of the column getters are written only by the open/option/close functions; " +
+			"C03.cacheowner — every cache installed with WithCache in non-test code is created in the installing function for that one index (cache keys do not identify the index, so a shared cache would mix results of different files). " +
 			"NOT decided: equality of results with an uncached index as such (follows from the above plus determinism of roaring, trusted); 64-bit hash collisions (assumed away by the property); LRU behaviour (C07).",
 		assumptions: []string{"roaring API classification (DESIGN Appendix A.1)", "xxhash is a hash with no exploitable structure on 8-byte-aligned inputs", "call graph over-approximates (no reflection/unsafe in reachable set)"},
 	})
@@ -388,6 +389,7 @@ func runC03(c *Ctx) {
 	c03Keypair(c)
 	c03Pure(c)
 	c03StoreImm(c)
+	cacheOwnerRule(c, "C03.cacheowner")
 }
 
 func c03Keyhash(c *Ctx) {
@@ -691,5 +693,31 @@ func c03StoreImm(c *Ctx) {
 	}
 	if n == 0 {
 		c.r.ok(rule, "Index/colGetter fields", fmt.Sprintf("written only in %d open/option/close functions", len(allowed.Funcs)))
+	}
+}
+
+// cacheOwnerRule: every cache handed to an index (updog.WithCache) is created for that index in the calling function.
+// Cache keys are content hashes of (column, value, operator) and do not identify the index file, so a cache object
+// shared by two indexes (or surviving a reopen of a rewritten file) answers one file's queries with the other's bitmaps.
+func cacheOwnerRule(c *Ctx, rule string) {
+	if c.a.WithCache == nil {
+		return
+	}
+	fr := newFresh(c)
+	n := 0
+	for _, fn := range c.w.ModFuncs {
+		allInstrs(fn, func(i ssa.Instruction) {
+			call, ok := i.(*ssa.Call)
+			if !ok || calleeFunc(&call.Call) != c.a.WithCache {
+				return
+			}
+			n++
+			key := fmt.Sprintf("%s: WithCache#%d", safeFname(fn), n)
+			c.r.check(fr.level(call.Call.Args[0]) >= shallow, rule, key, "the cache is created in this function for this index",
+				"the cache passed to WithCache is not created here for this one index (it comes from a field, map, global or parameter): cache keys do not identify the index file, so indexes sharing a cache return each other's bitmaps", c.w.ipos(i))
+		})
+	}
+	if n == 0 {
+		c.r.ok(rule, "module", "no non-test code installs a cache")
 	}
 }
